@@ -115,7 +115,7 @@ func ruleDescriptorImmutable(w *World, r *Report, rule string) {
 			return true
 		})
 	}
-	sort.Slice(sites, func(i, j int) bool { return sites[i].pos < sites[j].pos })
+	sort.Slice(sites, func(i, j int) bool { return posLess(sites[i].pos, sites[j].pos) })
 	seen := map[string]int{}
 	for _, s := range sites {
 		info := s.fi.Pkg.TypesInfo
@@ -708,7 +708,7 @@ func ruleBuildCachesInvalidated(w *World, r *Report, rule string) {
 	for fi := range rg.viewWriters {
 		writers = append(writers, fi)
 	}
-	sort.Slice(writers, func(i, j int) bool { return writers[i].Decl.Pos() < writers[j].Decl.Pos() })
+	sort.Slice(writers, func(i, j int) bool { return posLess(writers[i].Decl.Pos(), writers[j].Decl.Pos()) })
 	for _, fi := range writers {
 		if isAllocatingFunc(w, fi, named) {
 			continue
@@ -950,7 +950,7 @@ func ruleFamilyRegisteredWhole(w *World, r *Report, rule string) {
 	for f := range reg {
 		fns = append(fns, f)
 	}
-	sort.Slice(fns, func(i, j int) bool { return fns[i].Decl.Pos() < fns[j].Decl.Pos() })
+	sort.Slice(fns, func(i, j int) bool { return posLess(fns[i].Decl.Pos(), fns[j].Decl.Pos()) })
 	calls, bad := 0, 0
 	for _, f := range fns {
 		info := f.Pkg.TypesInfo
@@ -1159,7 +1159,7 @@ func ruleBuildOneCriticalSection(w *World, r *Report, rule string) {
 			}
 		}
 	}
-	sort.Slice(acqs, func(i, j int) bool { return acqs[i].pos < acqs[j].pos })
+	sort.Slice(acqs, func(i, j int) bool { return posLess(acqs[i].pos, acqs[j].pos) })
 	switch {
 	case len(acqs) == 1:
 		r.OK(rule, entry.Name()+"#one-critical-section", acqs[0].pos, false, "the %d functions a Build runs take collection.%s once around the registry views (%s in %s; %d other section(s) touch no view): graph, validation and snapshot see one state of the registry", len(build), mu.Name(), acqs[0].op, acqs[0].fi.Name(), other)
@@ -1556,7 +1556,7 @@ func ruleWhoStores(w *World, r *Report, rule string) {
 		for c := range w.Callers()[target] {
 			callers = append(callers, c)
 		}
-		sort.Slice(callers, func(i, j int) bool { return callers[i].Decl.Pos() < callers[j].Decl.Pos() })
+		sort.Slice(callers, func(i, j int) bool { return posLess(callers[i].Decl.Pos(), callers[j].Decl.Pos()) })
 		for _, c := range callers {
 			n++
 			_, ok := chain[c]
